@@ -19,7 +19,8 @@
 (*   acc     the user answered Accept and no Opened/OpenFailure came since  *)
 (*   ownopen the user issued open_substream (handed to the protocol) and no *)
 (*           Opened/OpenFailure came since                                  *)
-(*   aopen   the user issued open_substream since the last Opened           *)
+(*   nop / nacc / nans  open commands handed to the protocol / Accepts sent /*)
+(*           answers (Opened, OpenFailure) seen so far                      *)
 (*   want    an *obligated* open awaits its answer (see MonOpen)            *)
 (*   conn    "up"/"down": what the environment knows about the connection   *)
 (*   fault   the connection was disturbed since it was last reported up     *)
@@ -27,7 +28,7 @@
 (***************************************************************************)
 EXTENDS Naturals, Sequences, FiniteSets, TLC
 
-PeerInit == [open |-> FALSE, asked |-> FALSE, acc |-> FALSE, ownopen |-> FALSE, aopen |-> FALSE, want |-> FALSE,
+PeerInit == [open |-> FALSE, asked |-> FALSE, acc |-> FALSE, ownopen |-> FALSE, nop |-> 0, nacc |-> 0, nans |-> 0, want |-> FALSE,
              conn |-> "down", fault |-> FALSE, mustClose |-> FALSE, nopen |-> 0, nclosed |-> 0]
 
 MonInit(peers, auto) == [ps |-> [p \in peers |-> PeerInit], auto |-> auto, dead |-> FALSE, bad |-> "", badp |-> ""]
@@ -36,9 +37,10 @@ Fail(M, p, why) == IF M.bad = "" THEN [M EXCEPT !.bad = why, !.badp = p] ELSE M
 Set(M, p, f, v) == [M EXCEPT !.ps[p][f] = v]
 
 \* consent to an inbound stream: an explicit Accept, or (auto-accept configured) an own open
-\* (answers cannot be matched to open commands: a second open may be issued before the failure of the
-\*  first is read, so an open failure does not withdraw this consent; only the next Opened consumes it)
-Consent(M, p) == M.ps[p].acc \/ (M.auto /\ M.ps[p].aopen)
+\* (answers cannot be matched to open commands and commands are handled with a lag: as long as more
+\*  open commands were issued than answers were seen, one of them may still be in the command queue)
+\* (every answer belongs to an open command or to an Accept, so both are counted)
+Consent(M, p) == M.ps[p].acc \/ (M.auto /\ M.ps[p].nop + M.ps[p].nacc > M.ps[p].nans)
 
 (* ---- commands -------------------------------------------------------- *)
 
@@ -51,7 +53,7 @@ MonOpen(M, p, r) ==
   IF r = "already" THEN (IF s.open THEN M ELSE Fail(M, p, "open refused as already open while no stream is open"))
   ELSE IF s.open THEN Fail(M, p, "open accepted by the handle while a stream is open")
   ELSE LET clean == s.conn = "up" /\ ~s.fault /\ ~s.ownopen /\ ~s.asked /\ ~s.acc IN
-       [M EXCEPT !.ps[p].ownopen = TRUE, !.ps[p].aopen = TRUE, !.ps[p].want = s.want \/ clean]
+       [M EXCEPT !.ps[p].ownopen = TRUE, !.ps[p].nop = s.nop + 1, !.ps[p].want = s.want \/ clean]
 
 \* close_substream(p): r = "sent" | "noop"
 MonClose(M, p, r) == M
@@ -61,7 +63,7 @@ MonVal(M, p, v, r) ==
   LET s == M.ps[p] IN
   IF r = "noop" THEN M
   ELSE IF ~s.asked THEN Fail(M, p, "validation result accepted without a pending validation")
-  ELSE IF v = "accept" THEN [M EXCEPT !.ps[p].asked = FALSE, !.ps[p].acc = TRUE]
+  ELSE IF v = "accept" THEN [M EXCEPT !.ps[p].asked = FALSE, !.ps[p].acc = TRUE, !.ps[p].nacc = s.nacc + 1]
   \* rejecting the peer's half abandons the negotiation, own pending open included
   ELSE [M EXCEPT !.ps[p].asked = FALSE, !.ps[p].want = FALSE]
 
@@ -86,14 +88,14 @@ MonEvent(M, p, k) ==
     [] k = "opened" ->
          IF s.open THEN Fail(M, p, "stream opened twice without a close in between")
          ELSE IF ~Consent(M, p) THEN Fail([M EXCEPT !.ps[p].open = TRUE], p, "inbound stream opened without the user's acceptance")
-         ELSE [M EXCEPT !.ps[p].open = TRUE, !.ps[p].acc = FALSE, !.ps[p].ownopen = FALSE, !.ps[p].aopen = FALSE, !.ps[p].want = FALSE,
+         ELSE [M EXCEPT !.ps[p].open = TRUE, !.ps[p].acc = FALSE, !.ps[p].ownopen = FALSE, !.ps[p].nans = s.nans + 1, !.ps[p].want = FALSE,
                         !.ps[p].nopen = s.nopen + 1]
     [] k = "closed" ->
          IF ~s.open THEN Fail(M, p, "stream closed while not open")
          ELSE [M EXCEPT !.ps[p].open = FALSE, !.ps[p].mustClose = FALSE, !.ps[p].nclosed = s.nclosed + 1]
     [] k = "openfail" ->
          IF s.open THEN Fail(M, p, "open failure while the stream is open")
-         ELSE [M EXCEPT !.ps[p].acc = FALSE, !.ps[p].ownopen = FALSE, !.ps[p].want = FALSE]
+         ELSE [M EXCEPT !.ps[p].acc = FALSE, !.ps[p].ownopen = FALSE, !.ps[p].nans = s.nans + 1, !.ps[p].want = FALSE]
     [] k = "recv" ->
          IF ~s.open THEN Fail(M, p, "notification received outside an open stream") ELSE M
     [] OTHER -> M
